@@ -125,6 +125,9 @@ def make_namespace(ctx):
     return ns
 
 
+MEAN_LOOP = "outer:tfftp00"     # the mean-mode (DC) loop of S, whatever its position among the loops
+
+
 class MeanLoop(loops.Constructive):
     """for i in range(nz-1): tfftp[levels == i, 0, 0] = tfftp00;  tfftp00 -= S00*dz_i*(.5/Kz_i + .5/Kz_{i+1})
     invariant: tfftp00 = p000 - S00*Rsum(i);  tfftp[k,0,0] = p000 - S00*Rsum(levels[k]) for levels[k] < i."""
@@ -310,10 +313,10 @@ def check_return(run, inp, out, props_map=None):
     cfg = inp.cfg
     tr = run.__dict__.get("transforms", [])
     n_expected = 2 if cfg.footprint else 3
-    run.oblige("TC.transform-count", SBool(len(tr) == n_expected), kind="post",
+    run.oblige("TC.transform-count", SBool(len(tr) == n_expected), kind="post", meta={"structural": True},
                props={"C02", "C04", "C06", "C12"})
     if len(tr) != n_expected or len(run.int_defs) != 2:
-        run.oblige("GEO.pad-width-count", SBool(len(run.int_defs) == 2), kind="post", props={"C03", "C11"})
+        run.oblige("GEO.pad-width-count", SBool(len(run.int_defs) == 2), kind="post", meta={"structural": True}, props={"C03", "C11"})
         return
     (px, pxdef), (py, pydef) = run.int_defs
     sp = Spec(run, inp, px, py)
@@ -369,7 +372,7 @@ def explore_paths(ctx, cfgs=None):
     ns = make_namespace(ctx)
     st = {}
     f = harness.define(ctx, ns, "bldfm.solver", "steady_state_transport_solver",
-                       loop_specs={0: MeanLoop(st)}, label=LABEL)
+                       loop_specs={MEAN_LOOP: MeanLoop(st)}, label=LABEL)
     for cfg in (cfgs or configs()):
         def thunk(run, cfg=cfg):
             inp = SInputs(run, cfg)
@@ -405,7 +408,7 @@ def generate_main(ctx, props, precisions=("double",), symbolic_threads=False, cf
     ns = make_namespace(ctx)
     st = {}
     f = harness.define(ctx, ns, "bldfm.solver", "steady_state_transport_solver",
-                       loop_specs={0: MeanLoop(st)}, label=LABEL)
+                       loop_specs={MEAN_LOOP: MeanLoop(st)}, label=LABEL)
     for cfg in configs(precisions):
         if cfg_filter and not cfg_filter(cfg):
             continue
